@@ -310,3 +310,138 @@ def rule_loop_labels(repo: Repo, chk: Check, rule: str):
                 ok = d in E and jumps and E.index(d) > max(jumps)
                 chk.judge(rule, key + " [break label follows the back jump]", bool(ok),
                           f"'break' jumps to {var}, which is not placed after the loop's back jump", {"end_section": kinds}, d.where())
+
+
+# ------------------------------------------------------------------ R05.d / R06.b
+def _is_qualified_source(e, rd, nid, depth=0):
+    """Does *e* denote get_function_name(<node>) (the module-qualified name)?"""
+    if depth > 5:
+        return False
+    if isinstance(e, ast.Call) and isinstance(e.func, ast.Name) and e.func.id == "get_function_name":
+        return True
+    if isinstance(e, ast.Name) and nid is not None:
+        ds = rd.at(nid, e.id)
+        return bool(ds) and all(d.kind == "assign" and not d.index and d.value is not None and _is_qualified_source(d.value, rd, d.node, depth + 1) for d in ds)
+    return False
+
+
+def _transform_of(e, rd, nid, depth=0):
+    """If *e* is <qualified name>.replace(a, b) [+ suffix], return ((a, b), suffix, source_ok) else None."""
+    if depth > 6:
+        return None
+    if isinstance(e, ast.Call) and isinstance(e.func, ast.Attribute) and e.func.attr == "replace" and len(e.args) == 2 \
+            and all(isinstance(a, ast.Constant) and isinstance(a.value, str) for a in e.args):
+        return ((e.args[0].value, e.args[1].value), "", _is_qualified_source(e.func.value, rd, nid), norm(e.func.value))
+    if isinstance(e, ast.BinOp) and isinstance(e.op, ast.Add) and isinstance(e.right, ast.Constant) and isinstance(e.right.value, str):
+        t = _transform_of(e.left, rd, nid, depth + 1)
+        if t:
+            return (t[0], t[1] + e.right.value, t[2], t[3])
+    if isinstance(e, ast.JoinedStr) and e.values and isinstance(e.values[0], ast.FormattedValue):
+        t = _transform_of(e.values[0].value, rd, nid, depth + 1)
+        rest = e.values[1:]
+        if t and all(isinstance(v, ast.Constant) for v in rest):
+            return (t[0], t[1] + "".join(v.value for v in rest), t[2], t[3])
+    if isinstance(e, ast.Name) and nid is not None:
+        ds = rd.at(nid, e.id)
+        if ds and all(d.kind == "assign" and not d.index and d.value is not None for d in ds):
+            ts = [_transform_of(d.value, rd, d.node, depth + 1) for d in ds]
+            if all(ts) and len({(t[0], t[1]) for t in ts}) == 1:
+                return (ts[0][0], ts[0][1], all(t[2] for t in ts), ts[0][3])
+    return None
+
+
+def rule_function_labels(repo: Repo, chk: Check, rule: str):
+    """All constructions of a function's label agree (3 writers in the code
+    generator, 1 reader in the ra logic)."""
+    from ..emit import collect_sites
+    uses = []  # (module, fn, expr, transform, suffix, source_ok, role)
+    for mn in ("generate_code", "compile_pass"):
+        m = repo.mod(mn)
+        for fn in m.funcs.values():
+            if isinstance(fn, ast.Lambda):
+                continue
+            cands = [c for c in ast.walk(fn) if enclosing_def(c) is fn and isinstance(c, ast.Call) and isinstance(c.func, ast.Attribute)
+                     and c.func.attr == "replace" and len(c.args) == 2]
+            if not cands:
+                continue
+            cfg, rd = fn_ctx(fn)
+            for c in cands:
+                ids = live_ids(cfg, c)
+                if not ids:
+                    continue
+                t = _transform_of(c, rd, ids[0])
+                if t is None:
+                    continue
+                # only name->label transformations: receiver is a function name (qualified or not)
+                recv = t[3]
+                if not (t[2] or "name" in recv):
+                    continue
+                uses.append((m, fn, c, t))
+    if len(uses) < 4:
+        raise AnalysisError(f"{rule}: only {len(uses)} function-label constructions found (expected the 3 writers of the code generator and the reader of the ra logic)")
+    transforms = {}
+    for m, fn, c, t in uses:
+        transforms.setdefault(t[0], []).append(f"{m.name}:{fn.qual}")
+    majority = max(transforms, key=lambda k: len(transforms[k]))
+    for m, fn, c, t in uses:
+        chk.saw(m.name, fn.qual)
+        key = f"{m.name}:{fn.qual}:function label from {t[3]}"
+        where = f"{m.path}:{c.lineno} in {fn.qual}"
+        chk.judge(rule, key + " [qualified name]", t[2],
+                  f"the label is built from {t[3]}, not from get_function_name(...): for a function of a library module the label "
+                  f"'<module>.<name>' and this spelling differ", {"source": t[3]}, where)
+        chk.judge(rule, key + " [same transformation]", t[0] == majority,
+                  f"this site maps {t[0][0]!r}->{t[0][1]!r}, the other sites {majority[0]!r}->{majority[1]!r}", {"transform": list(t[0])}, where)
+    # '<name>end' suffix: definition, references and the ra logic
+    suffixes = []  # (module, fn, text, where, has_colon)
+    for mn in ("generate_code", "compile_pass"):
+        m = repo.mod(mn)
+        for fn in m.funcs.values():
+            if isinstance(fn, ast.Lambda):
+                continue
+            cfg = rd = None
+            for e in ast.walk(fn):
+                if enclosing_def(e) is not fn:
+                    continue
+                if isinstance(e, ast.BinOp) and isinstance(e.op, ast.Add) and isinstance(e.right, ast.Constant) and isinstance(e.right.value, str) \
+                        and e.right.value not in ("", ":") and not isinstance(getattr(e, "parent", None), ast.BinOp) or \
+                        isinstance(e, ast.JoinedStr) and len(e.values) >= 2 and isinstance(e.values[0], ast.FormattedValue):
+                    if cfg is None:
+                        cfg, rd = fn_ctx(fn)
+                    ids = live_ids(cfg, e)
+                    if not ids:
+                        continue
+                    t = _transform_of(e, rd, ids[0])
+                    if t and t[1] and t[1] != ":":
+                        suffixes.append((m, fn, t[1], f"{m.path}:{e.lineno} in {fn.qual}"))
+    stripped = {}
+    for m, fn, sfx, where in suffixes:
+        stripped.setdefault(sfx.rstrip(":"), []).append((m, fn, sfx, where))
+    defs = [x for x in suffixes if x[2].endswith(":") and x[0].name == "generate_code"]
+    if not defs:
+        raise AnalysisError(f"{rule}: definition site of the '<name>end:' label not found")
+    want = defs[0][2].rstrip(":")
+    for m, fn, sfx, where in suffixes:
+        chk.judge(rule, f"{m.name}:{fn.qual}:end-label suffix {sfx!r}", sfx.rstrip(":") == want,
+                  f"this site spells the function's end label with suffix {sfx!r}, its definition uses {want + ':'!r}", None, where)
+    mods = {m.name for m, fn, sfx, where in suffixes}
+    if "compile_pass" not in mods:
+        raise AnalysisError(f"{rule}: the ra logic no longer refers to the '<name>end' label")
+    # every jal operand is a generated label variable or such a transformed name
+    g = repo.mod("generate_code")
+    for s in collect_sites(repo, ["generate_code"]):
+        ops = s.opcodes
+        if ops is TOP or not ops or set(ops) != {"jal"}:
+            continue
+        cfg, rd = fn_ctx(s.fn)
+        ids = live_ids(cfg, s.call)
+        arg = s.input_exprs[0] if s.input_exprs else None
+        ok = False
+        if arg is not None and ids:
+            if _transform_of(arg, rd, ids[0]):
+                ok = True
+            elif isinstance(arg, ast.Name):
+                ds = rd.at(ids[0], arg.id)
+                ok = bool(ds) and all(d.kind == "assign" and isinstance(d.value, ast.Call) and norm(d.value.func).endswith("get_label") for d in ds)
+        chk.judge(rule, f"generate_code:{s.qual}:jal target {norm(arg) if arg is not None else '?'}", ok,
+                  "the call target is neither a generated label nor the transformed qualified function name", None, s.where())
